@@ -32,6 +32,7 @@ class Weird:
 
 
 MAKERS = {'None': lambda: None, 'zero': lambda: 0, 'str': lambda: '', 'list': lambda: [], 'weird': Weird}
+KINDS = ['None', 'zero', 'str', 'list', 'weird']
 
 # concrete spelling of the model's names "a", "b" for each lexical class
 REAL = {
@@ -69,9 +70,12 @@ class Env:
 
 
 class ResourcesAdapter:
-    def __init__(self, desper, probe=False, depth=2):
+    def __init__(self, desper, probe=False, depth=2, kind_shift=0):
         self.desper = desper
         self.probe = probe
+        # The value kind matters to the code only if it is wrong, and not at all to the intended model: the dumped
+        # instance fixes one assignment and each replay pass rotates it (None -> 0 -> '' -> [] -> weird -> None)
+        self.kind_shift = kind_shift
         self.depth = depth          # MaxDepth of the instance (not a state variable)
         self.paths = None
         self._exp_cache = {}
@@ -102,7 +106,8 @@ class ResourcesAdapter:
         env.loaded = []
         env.order = sorted(fmap(init['maps']))                     # 'm0' < 'm1' < ...: MapOrder
         env.maps = {m: self.RMap() for m in env.order}
-        env.handles = {h: self.RHandle(h, k) for h, k in sorted(fmap(init['kind']).items())}
+        env.handles = {h: self.RHandle(h, KINDS[(KINDS.index(k) + self.kind_shift) % len(KINDS)])
+                       for h, k in sorted(fmap(init['kind']).items())}
         env.snaps = {}                                             # map id -> snapshot node mirroring it
         cls = fmap(init['cls'])
         env.real = {n: REAL[c][0 if n == 'a' else 1] for n, c in cls.items()}
@@ -112,6 +117,7 @@ class ResourcesAdapter:
         sep = self.ResourceMap.split_char
         env.probes = [('/'.join(p), sep.join(env.real.get(n, n) for n in p), [env.real.get(n, n) for n in p])
                       for p in self._paths()]
+        env.probes1 = [p for p in env.probes if '/' not in p[0]]
         # white-box facets only while the attributes they read exist
         self.wb = hasattr(env.maps[env.order[0]], 'handles') and hasattr(env.maps[env.order[0]].handles, 'maps')
 
@@ -294,12 +300,19 @@ class ResourcesAdapter:
         env = self.env
         ids = self._ids()
         maps = sorted(env.maps.items())
-        probes = env.probes
         handles = list(env.handles.values())
         Handle = self.Handle
+        # a map whose tables are empty is read through the one-name paths only (nothing can be below them)
+        plan = []
+        for mid, m in maps:
+            try:
+                empty = not m.maps and not m.handles
+            except Exception:
+                empty = False
+            plan.append((mid, m, env.probes1 if empty else env.probes))
         # get(path, SENTINEL): never loads
         out = []
-        for mid, m in maps:
+        for mid, m, probes in plan:
             for pstr, key, _parts in probes:
                 try:
                     v = m.get(key, SENTINEL)
@@ -325,7 +338,7 @@ class ResourcesAdapter:
             obs['wb_layers'] = None
         if self.probe:
             item, chain, call = [], [], []
-            for mid, m in maps:
+            for mid, m, probes in plan:
                 for pstr, key, parts in probes:
                     # m['a/b']
                     for h in handles:
